@@ -150,8 +150,8 @@ func (g *c24Gen) next() string {
 		return fmt.Sprintf("op del %s %s vid=%s im=%s", b, k, g.vid(), im)
 	case "cp":
 		sb, sk := g.existing()
-		return fmt.Sprintf("op cp %s %s %s %s svid=%s mdir=%s tdir=%s %s", sb, sk, b, k, g.vid(),
-			verifx.Pick(r, []string{"C", "C", "R"}), verifx.Pick(r, []string{"C", "C", "R"}), genOpts(r).line())
+		return fmt.Sprintf("op cp %s %s %s %s svid=%s mdir=%s tdir=%s %s%s", sb, sk, b, k, g.vid(),
+			verifx.Pick(r, []string{"C", "C", "R"}), verifx.Pick(r, []string{"C", "C", "R"}), genOpts(r).line(), g.conds())
 	case "app":
 		off := "~"
 		if r.Chance(1, 2) {
@@ -197,7 +197,7 @@ func (g *c24Gen) next() string {
 				a := r.Intn(12)
 				rng = fmt.Sprintf("%d-%d", a, a+r.Intn(40))
 			}
-			return fmt.Sprintf("op uppc %s %s %s %s %d %d svid=%s range=%s", sb, sk, ub, uk, i, n, g.vid(), rng)
+			return fmt.Sprintf("op uppc %s %s %s %s %d %d svid=%s range=%s%s", sb, sk, ub, uk, i, n, g.vid(), rng, g.conds())
 		case "cmpl":
 			if len(u.parts) < 2 && r.Chance(2, 3) { // grow the upload first: completed uploads should have ≥ 2 parts
 				n := len(u.parts) + 1
@@ -228,12 +228,66 @@ func (g *c24Gen) next() string {
 	return "op lsb"
 }
 
+// conds: copy-source preconditions for a third of the copies — ETag conditions against the source's
+// ETag / another / "*", time conditions at the boundaries of the source's Last-Modified second
+// (equal, one millisecond and one second to either side, half a second).
+func (g *c24Gen) conds() string {
+	r := g.r
+	if !r.Chance(1, 3) {
+		return ""
+	}
+	tag := func() string {
+		if r.Chance(3, 5) {
+			return "~"
+		}
+		return verifx.Pick(r, []string{"*", "src", "src", "other"})
+	}
+	at := func() string {
+		if r.Chance(1, 2) {
+			return "~"
+		}
+		return verifx.Pick(r, []string{"0", "0", "0", "-1", "1", "-1000", "1000", "-500", "500", "-86400000", "86400000"})
+	}
+	return fmt.Sprintf(" cim=%s cinm=%s cims=%s cius=%s", tag(), tag(), at(), at())
+}
+
 // vid: mostly the current version; sometimes "null" or an issued version id (of any bucket).
 func (g *c24Gen) vid() string {
 	if g.r.Chance(3, 4) {
 		return "~"
 	}
 	return g.vidArg()
+}
+
+func c24CondOps() []string {
+	h := verifx.HexS
+	none := " ct=~ md=~ tags=~ cls=~"
+	ops := []string{"op mkb b0", "op mkb b1", "op mkb b2", "op put b0 k0 " + h("0123456789") + none + " inm=0 im=~",
+		"op put b1 k0 " + h("abcdefghij") + none + " inm=0 im=~", "op mpu b1 k1" + none, "op mpu b2 k1" + none}
+	cp := func(sb, db, conds string) string {
+		return fmt.Sprintf("op cp %s k0 %s dir/k2 svid=~ mdir=C tdir=C%s %s", sb, db, none, conds)
+	}
+	pc := func(sb, db string, u int, conds string) string {
+		return fmt.Sprintf("op uppc %s k0 %s k1 %d 1 svid=~ range=2-6 %s", sb, db, u, conds)
+	}
+	for _, d := range []string{"-1000", "-1", "0", "1", "1000"} {
+		for _, pair := range [][2]string{{"b0", "b1"}, {"b1", "b2"}} { // across storages, inside the default storage
+			u := 0
+			if pair[1] == "b2" {
+				u = 1
+			}
+			ops = append(ops,
+				cp(pair[0], pair[1], "cim=~ cinm=~ cims="+d+" cius=~"),
+				cp(pair[0], pair[1], "cim=~ cinm=~ cims=~ cius="+d),
+				cp(pair[0], pair[1], "cim=src cinm=~ cims=~ cius="+d),
+				pc(pair[0], pair[1], u, "cim=~ cinm=~ cims="+d+" cius=~"),
+				pc(pair[0], pair[1], u, "cim=~ cinm=~ cims=~ cius="+d))
+		}
+	}
+	for _, tc := range []string{"cim=src cinm=~", "cim=other cinm=~", "cim=* cinm=~", "cim=~ cinm=src", "cim=~ cinm=other", "cim=~ cinm=*", "cim=src cinm=other"} {
+		ops = append(ops, cp("b0", "b1", tc+" cims=~ cius=~"), cp("b1", "b2", tc+" cims=~ cius=~"), pc("b0", "b1", 0, tc+" cims=~ cius=~"))
+	}
+	return append(ops, "op cp b0 nokey b1 k0 svid=~ mdir=C tdir=C"+none+" cim=* cinm=~ cims=~ cius=~", "op get b1 dir/k2 vid=~", "op get b2 dir/k2 vid=~")
 }
 
 type c24DirectedCase struct {
@@ -269,6 +323,12 @@ func c24Directed() []c24DirectedCase {
 				"op cmpl b2 k0 1 parts=~ inm=0 im=~", "op cp b2 k0 b3 k0 svid=~ mdir=C tdir=C" + none, "op cp b2 k0 b0 dir/k2 svid=~ mdir=C tdir=C" + none,
 				"op del b0 k0 vid=~ im=~", "op cp b0 k0 b1 k0 svid=~ mdir=C tdir=C" + none, "op cp b0 k0 b1 k0 svid=v1 mdir=C tdir=C" + none, "op cp b4 k0 b1 k0 svid=~ mdir=C tdir=C" + none,
 				"op cp b0 k0 b4 k0 svid=v1 mdir=C tdir=C" + none, "op dels b0 k0,dir/k2", "op lsv b0", "op lsb"},
+		},
+		{ // copy-source preconditions at the boundaries, across storages (b0 -> b1) and inside one (b1 -> b2): each
+			// time condition one second / one millisecond before, equal to, and after the source's Last-Modified
+			// second; ETag conditions against the source's ETag, another one and "*"; UploadPartCopy likewise
+			cfg: c24Cfg{n: 2, mapped: map[string]int{"b0": 1}},
+			ops: c24CondOps(),
 		},
 	}
 }
